@@ -277,3 +277,27 @@ def run(ctx):
                    "the whole-map reader can return without merging the property store although properties_root != 0: after a compaction, a "
                    "partial update of an entity hides all of its compacted properties", b.file, sample={"method": m})
     ctx.floor("C05.5", "whole-map readers", n5, 2)
+
+    # ---- clause 6: a tombstone hides the same and older runs only -----------------------------------------
+    # The read overlay walks the runs newest -> oldest and a run's tombstones take effect from that run on; a relationship re-created by a
+    # *newer* run than the tombstone therefore stays visible.  Compaction must reproduce that: build_segment_from_runs grows its blocked sets
+    # inside the per-run loop, before that run's edges are filtered.  Collecting the tombstones of all runs up front (or after the edges of
+    # the run) turns `delete then re-create` into `deleted`, so compaction changes what reads observe.
+    ctx.rule("C05.6", "build_segment_from_runs grows its tombstone sets per run, inside the loop over the runs and before that run's edges are filtered")
+    sb = ctx.body(M.STORAGE + "engine::build_segment_from_runs" if hasattr(M, "STORAGE") else "nervusdb_storage::engine::build_segment_from_runs")
+    edges_it = [c for c in sb.calls() if c.name.endswith("L0Run::iter_edges")]
+    ctx.floor("C05.6", "iter_edges sites in build_segment_from_runs", len(edges_it), 1)
+    for what in ("iter_tombstoned_nodes", "iter_tombstoned_edges"):
+        ts = [c for c in sb.calls() if c.name.endswith("L0Run::" + what)]
+        ok = bool(ts) and bool(edges_it)
+        why = ""
+        for e in edges_it:
+            cyc = sb.reachable(sb.succs(e.bb))
+            per_run = [t for t in ts if t.bb in cyc and sb.dominates(t.bb, e.bb)]
+            if not per_run:
+                ok = False
+                why = "no %s call inside the run loop before iter_edges (it is %s)" % (what, "collected outside the loop" if not [t for t in ts if t.bb in cyc] else "after the edges")
+        ctx.instance("C05.6", "build_segment_from_runs: %s grown per run before the run's edges=%s" % (what, ok))
+        ctx.oblige(ok, "C05.6", "build_segment_from_runs:%s-not-per-run" % what,
+                   "the segment builder does not apply %s run by run (%s): a tombstone of an older run also removes a newer re-creation of the same key, "
+                   "so a relationship deleted and later re-created disappears at the next compaction" % (what.replace("iter_", ""), why or "missing"), sb.file)
